@@ -319,6 +319,54 @@ fn cmd_dump_tables() -> i32 {
     0
 }
 
+/// Replay for the compressor-reset harness: dirty a compressor through the public API with many
+/// histories (streams abandoned at every cut point, pending output, error states, finished streams),
+/// call reset(), and compare every hook-visible field with a new compressor of the same flags.
+fn cmd_reset_check() -> i32 {
+    use miniz_oxide::deflate::core::create_comp_flags_from_zip_params;
+    let text: Vec<u8> = b"the quick brown fox jumps over the lazy dog; pack my box with five dozen liquor jugs. "
+        .iter().cycle().take(4000).enumerate().map(|(i, &b)| if i % 97 == 13 { b ^ 0x20 } else { b }).collect();
+    let mut bad = 0;
+    for level in [1i32, 4, 6, 9] {
+        for strat in [0i32, 1, 3] {
+            let flags = create_comp_flags_from_zip_params(level, 1, strat);
+            let fresh = CompressorOxide::new(flags);
+            let want = fresh.verif_scalars();
+            for cut in (1..1400).step_by(3) {
+                for small_out in [false, true] {
+                    let mut c = CompressorOxide::new(flags);
+                    let mut out = vec![0u8; if small_out { 3 } else { 8192 }];
+                    let fl = if small_out { TDEFLFlush::Finish } else { TDEFLFlush::None };
+                    let _ = compress(&mut c, &text[..cut], &mut out, fl);
+                    if cut % 5 == 0 {
+                        // drive it into the error state as well
+                        let _ = compress(&mut c, &text[..1], &mut out, TDEFLFlush::None);
+                    }
+                    c.reset();
+                    let got = c.verif_scalars();
+                    let arrays_clean = (0..32768).all(|i| c.verif_hash(i) == 0 && c.verif_next(i) == 0)
+                        && (0..33026).all(|i| c.verif_dict(i) == 0)
+                        && (0..288).all(|i| (0..3).all(|t| c.verif_huff_count(t, i) == 0));
+                    if got != want || !arrays_clean {
+                        if bad < 3 {
+                            println!("REPRODUCED C18 after compress(level {}, strategy {}, {} bytes, small_out={}) + reset(): state differs from a new compressor: got {:?} want {:?} arrays_clean={}",
+                                     level, strat, cut, small_out, got, want, arrays_clean);
+                        }
+                        bad += 1;
+                    }
+                }
+            }
+        }
+    }
+    if bad == 0 {
+        println!("NOT-REPRODUCED");
+        0
+    } else {
+        println!("REPRODUCED C18 in {} histories", bad);
+        1
+    }
+}
+
 fn main() {
     let args: Vec<String> = std::env::args().skip(1).collect();
     if args.is_empty() {
@@ -328,6 +376,7 @@ fn main() {
     let rc = match args[0].as_str() {
         "route" => cmd_route(&args[1..]),
         "refcheck" => cmd_refcheck(),
+        "reset-check" => cmd_reset_check(),
         "dump-tables" => cmd_dump_tables(),
         "capi-init" => cmd_capi_init(&args[1..]),
         "capi-init-child" => cmd_capi_init_child(&args[1..]),
